@@ -15,7 +15,7 @@ from typing import Any, Dict, List, Optional, Set, Tuple
 from ..kit import (Kit, is_call, key, norm, atom_truthy_of, any_atom)
 from ..index import (dotted, names_read, walk_shallow, NOFOLD, unparse,
                      AnalysisError)
-from ..absint import (evaluate, product, int_classes, Obj, Unknown, _Raise,
+from ..absint import (evaluate, evaluate_total, product, int_classes, Obj, Unknown, _Raise,
                       NotEvaluable)
 from ..cfg import Node
 
@@ -135,92 +135,95 @@ def r1(k: Kit) -> None:
             return Obj('ret')
         ev_atoms = {}
         try:
-            o = _eval_gate(idx, fi, frag, val, p, on_call, atoms)
+            outs = _eval_gate(idx, fi, frag, val, p, on_call, atoms)
+            s0 = s
         except NotEvaluable as exc:
             rep.error('C06.R1', 'not-evaluable', str(exc))
             return
-        disp = [n for n, a in o.calls if n.endswith('.process_packet')]
-        dispatched = disp[0].rsplit('.', 1)[0] if disp else None
-        rejected = o.kind == 'raise' and o.value == 'ProtocolError' and \
-            not disp
-        enc = s['enc'] is not None
-        strict = s['strict']
+        for _extra, o in outs:
+            s = dict(s0, **{'(unlisted) ' + kk: vv for kk, vv in _extra.items()})
+            disp = [n for n, a in o.calls if n.endswith('.process_packet')]
+            dispatched = disp[0].rsplit('.', 1)[0] if disp else None
+            rejected = o.kind == 'raise' and o.value == 'ProtocolError' and \
+                not disp
+            enc = s['enc'] is not None
+            strict = s['strict']
 
-        def row(name: str, cond: bool, req: bool, why: str) -> None:
-            if cond:
-                rows_hit[name] = rows_hit.get(name, 0) + 1
-                if not req:
-                    bad(name, s, why + f' (outcome {o})')
-        row('noenc-50..59,80+ rejected',
-            not enc and (50 <= p <= 59 or p >= 80), rejected,
-            'non-transport message accepted before keys are in effect')
-        row('noenc-60..79 rejected', not enc and UA_F <= p <= UA_L, rejected,
-            'auth method message accepted before keys are in effect')
-        row('strict-initial-2..4 rejected',
-            not enc and strict and 2 <= p <= 4, rejected,
-            'IGNORE/UNIMPLEMENTED/DEBUG accepted during the initial strict '
-            'key exchange')
-        row('kex-range without kex rejected',
-            KEX_F <= p <= KEX_L and s['kex'] is None, rejected,
-            'key exchange message accepted with no exchange in progress')
-        row('auth-range without auth rejected',
-            UA_F <= p <= UA_L and s['auth'] is None, rejected,
-            'auth method message accepted with no auth in progress')
-        row('80+ before auth complete rejected',
-            p >= 80 and not s['auth_complete'], rejected,
-            'connection-layer message accepted before authentication')
-        row('unknown channel rejected',
-            CH_F <= p <= CH_L and enc and s['auth_complete'] and
-            s['chan'] != 'known', rejected,
-            'channel message for an unknown channel accepted')
-        if dispatched is not None:
-            want = 'KEX' if KEX_F <= p <= KEX_L else \
-                'AUTH' if UA_F <= p <= UA_L else \
-                'CHAN' if CH_F <= p <= CH_L else 'self'
-            row('dispatch target', True, dispatched == want,
-                f'type {p} dispatched to {dispatched}, expected {want}')
-        row('ignored first kex packet',
-            KEX_F <= p <= KEX_L and s['kex'] is not None and s['ignore_first'],
-            not disp and o.kind == 'return' and
-            ('self._ignore_first_kex', False) in o.stores,
-            'wrongly guessed first kex packet not skipped exactly once')
-        # liveness rows: legitimate traffic reaches its handler
-        row('live: kex', KEX_F <= p <= KEX_L and s['kex'] is not None and
-            not s['ignore_first'], dispatched == 'KEX',
-            'legitimate kex message not dispatched')
-        row('live: auth', UA_F <= p <= UA_L and s['auth'] is not None,
-            dispatched == 'AUTH', 'legitimate auth message not dispatched')
-        row('live: channel', CH_F <= p <= CH_L and s['auth_complete'] and
-            s['chan'] == 'known', dispatched == 'CHAN',
-            'legitimate channel message not dispatched')
-        row('live: transport', p in (1, 20, 21) or
-            (2 <= p <= 4 and (enc or not strict)) or
-            (p in (5, 6, 7, 50, 51, 52, 53) and enc) or
-            (80 <= p <= 92 and s['auth_complete']),
-            dispatched == 'self', 'legitimate transport/auth/connection '
-            'message not dispatched to the connection')
-        if disp and s['result'] is False:
-            unimpl = [a for n, a in o.calls if n == 'self.send_packet' and
-                      a and a[0] == 3]
-            row('unknown type, strict initial kex → error',
-                strict and not enc, o.kind == 'raise' and
-                o.value == 'ProtocolError' and not unimpl,
-                'unhandled message during strict initial exchange not fatal')
-            row('unknown type → UNIMPLEMENTED(seq)',
-                not (strict and not enc),
-                o.kind == 'return' and len(unimpl) == 1 and o.value is True,
-                'unhandled message not answered with exactly one '
-                'UNIMPLEMENTED')
-        if disp and s['result'] == 'decode_error':
-            row('handler decode error → ProtocolError', True,
-                o.kind == 'raise' and o.value == 'ProtocolError',
-                'PacketDecodeError from a handler is not converted')
-        fin = [a for n, a in o.calls if n == 'self._finish_recv_packet']
-        row('accepted packet finishes exactly once', o.kind == 'return' and
-            o.value is True, len(fin) == 1,
-            'accepted packet does not advance the receive state exactly once')
-        row('rejected packet is not finished', rejected, len(fin) == 0,
-            'rejected packet still advances the receive state')
+            def row(name: str, cond: bool, req: bool, why: str) -> None:
+                if cond:
+                    rows_hit[name] = rows_hit.get(name, 0) + 1
+                    if not req:
+                        bad(name, s, why + f' (outcome {o})')
+            row('noenc-50..59,80+ rejected',
+                not enc and (50 <= p <= 59 or p >= 80), rejected,
+                'non-transport message accepted before keys are in effect')
+            row('noenc-60..79 rejected', not enc and UA_F <= p <= UA_L, rejected,
+                'auth method message accepted before keys are in effect')
+            row('strict-initial-2..4 rejected',
+                not enc and strict and 2 <= p <= 4, rejected,
+                'IGNORE/UNIMPLEMENTED/DEBUG accepted during the initial strict '
+                'key exchange')
+            row('kex-range without kex rejected',
+                KEX_F <= p <= KEX_L and s['kex'] is None, rejected,
+                'key exchange message accepted with no exchange in progress')
+            row('auth-range without auth rejected',
+                UA_F <= p <= UA_L and s['auth'] is None, rejected,
+                'auth method message accepted with no auth in progress')
+            row('80+ before auth complete rejected',
+                p >= 80 and not s['auth_complete'], rejected,
+                'connection-layer message accepted before authentication')
+            row('unknown channel rejected',
+                CH_F <= p <= CH_L and enc and s['auth_complete'] and
+                s['chan'] != 'known', rejected,
+                'channel message for an unknown channel accepted')
+            if dispatched is not None:
+                want = 'KEX' if KEX_F <= p <= KEX_L else \
+                    'AUTH' if UA_F <= p <= UA_L else \
+                    'CHAN' if CH_F <= p <= CH_L else 'self'
+                row('dispatch target', True, dispatched == want,
+                    f'type {p} dispatched to {dispatched}, expected {want}')
+            row('ignored first kex packet',
+                KEX_F <= p <= KEX_L and s['kex'] is not None and s['ignore_first'],
+                not disp and o.kind == 'return' and
+                ('self._ignore_first_kex', False) in o.stores,
+                'wrongly guessed first kex packet not skipped exactly once')
+            # liveness rows: legitimate traffic reaches its handler
+            row('live: kex', KEX_F <= p <= KEX_L and s['kex'] is not None and
+                not s['ignore_first'], dispatched == 'KEX',
+                'legitimate kex message not dispatched')
+            row('live: auth', UA_F <= p <= UA_L and s['auth'] is not None,
+                dispatched == 'AUTH', 'legitimate auth message not dispatched')
+            row('live: channel', CH_F <= p <= CH_L and s['auth_complete'] and
+                s['chan'] == 'known', dispatched == 'CHAN',
+                'legitimate channel message not dispatched')
+            row('live: transport', p in (1, 20, 21) or
+                (2 <= p <= 4 and (enc or not strict)) or
+                (p in (5, 6, 7, 50, 51, 52, 53) and enc) or
+                (80 <= p <= 92 and s['auth_complete']),
+                dispatched == 'self', 'legitimate transport/auth/connection '
+                'message not dispatched to the connection')
+            if disp and s['result'] is False:
+                unimpl = [a for n, a in o.calls if n == 'self.send_packet' and
+                          a and a[0] == 3]
+                row('unknown type, strict initial kex → error',
+                    strict and not enc, o.kind == 'raise' and
+                    o.value == 'ProtocolError' and not unimpl,
+                    'unhandled message during strict initial exchange not fatal')
+                row('unknown type → UNIMPLEMENTED(seq)',
+                    not (strict and not enc),
+                    o.kind == 'return' and len(unimpl) == 1 and o.value is True,
+                    'unhandled message not answered with exactly one '
+                    'UNIMPLEMENTED')
+            if disp and s['result'] == 'decode_error':
+                row('handler decode error → ProtocolError', True,
+                    o.kind == 'raise' and o.value == 'ProtocolError',
+                    'PacketDecodeError from a handler is not converted')
+            fin = [a for n, a in o.calls if n == 'self._finish_recv_packet']
+            row('accepted packet finishes exactly once', o.kind == 'return' and
+                o.value is True, len(fin) == 1,
+                'accepted packet does not advance the receive state exactly once')
+            row('rejected packet is not finished', rejected, len(fin) == 0,
+                'rejected packet still advances the receive state')
     rep.count('eval.gate_states', n_states)
     rep.count('C06.R1.states_skipped_by_invariant', n_skipped)
     for name in sorted(rows_hit):
@@ -242,7 +245,9 @@ def r1(k: Kit) -> None:
 def _eval_gate(idx, fi, frag, val, p, on_call, atoms):
     init = {'pkttype': p, 'seq': 7, 'packet': Obj('packet'),
             'payload': Obj('payload')}
-    return evaluate(idx, fi.module, frag, val, init, on_call, atoms)
+    # a state field the table does not list (one a later edit made the gate
+    # depend on) is universally quantified over {False, True}
+    return evaluate_total(idx, fi.module, frag, val, init, on_call, atoms)
 
 
 def inv(k: Kit) -> None:
